@@ -25,8 +25,10 @@ static const int MAXT = 16;
 // ---- case encoding ----------------------------------------------------------
 // cfg[0]            number of tasks - 1 (mod 16)
 // top-level commands (executed in order):
-enum { T_NOW, T_FUTURE, T_CANCEL, T_RUN, T_HAS, T_CLEAN, NTOP };
+enum { T_NOW, T_FUTURE, T_CANCEL, T_RUN, T_HAS, T_CLEAN, T_BURST, NTOP };
 //   T_NOW(sel)  T_FUTURE(sel, ts)  T_CANCEL(sel)  T_RUN(now)  T_HAS  T_CLEAN
+//   T_BURST(sel, k, ts, dir)   k schedule_future calls on free tasks with times ts, ts+d, ts+2d, ... (d = 0 equal run,
+//                              +1 increasing, -1 decreasing, wrapping)
 // script steps (never executed at top level; step k of task i = k-th step op whose a[0] % ntasks == i):
 enum {
     S_SCHED_NOW = 10,  // (owner, sel)          on RUN: schedule another free task now
@@ -68,13 +70,14 @@ static Case gen_case() {
     uint64_t nt = weighted({1, 3}) == 0 ? pick(0, 3) : pick(2, MAXT - 1);
     c.cfg = {nt};
     std::vector<Op> cmds = op_list(50, [] {
-        switch (weighted({22, 30, 10, 30, 4, 4})) {
+        switch (weighted({22, 28, 10, 28, 3, 4, 5})) {
         case 0: return mkop(T_NOW, {pick(0, MAXT - 1)});
         case 1: return mkop(T_FUTURE, {pick(0, MAXT - 1), gen_ts()});
         case 2: return mkop(T_CANCEL, {pick(0, MAXT - 1)});
         case 3: return mkop(T_RUN, {gen_now()});
         case 4: return mkop(T_HAS);
-        default: return mkop(T_CLEAN);
+        case 5: return mkop(T_CLEAN);
+        default: return mkop(T_BURST, {pick(0, MAXT - 1), pick(2, 12), gen_ts(), pick(0, 2)});
         }
     });
     std::vector<Op> steps = op_list(36, [] {
@@ -149,6 +152,7 @@ struct World {
     bool reentrant_sched = false, cancel_in_batch = false;
 };
 static World *g_w = nullptr;
+static volatile sig_atomic_t g_armed = 0, g_in_fn = 0; // watchdog state, see below
 
 static void task_fn(struct aws_task *task, void *arg, enum aws_task_status status);
 
@@ -288,7 +292,6 @@ static const char *stname(int st) {
 // *user CPU time* (ITIMER_VIRTUAL: independent of machine load) inside one call is reported as a hang.
 // The handler only jumps when no task function is on the stack (harness containers are then quiescent).
 static sigjmp_buf g_jmp;
-static volatile sig_atomic_t g_armed = 0, g_in_fn = 0;
 static void arm(long usec) {
     struct itimerval it;
     memset(&it, 0, sizeof it);
@@ -573,6 +576,18 @@ static void run(const Case &c, Ctx &ctx) {
             check_query(w, "run_all");
             break;
         }
+        case T_BURST: {
+            uint64_t k = op.arg(1) % (MAXT + 1), ts = op.arg(2), d = op.arg(3) % 3 == 0 ? 0 : op.arg(3) % 3 == 1 ? 1 : UINT64_MAX;
+            for (uint64_t j = 0; j < k; j++) {
+                int ti = scan(w, op.arg(0) + j, [&](int i) { return w.t[i].open < 0; });
+                if (ti < 0) break;
+                do_schedule(w, ti, false, ts + j * d);
+            }
+            evaluate(w, CALL_FUTURE, 0, 0);
+            check_query(w, "schedule_future burst");
+            ctx.tag(d == 0 ? "burst_equal" : d == 1 ? "burst_increasing" : "burst_decreasing");
+            break;
+        }
         case T_HAS: check_query(w, "has_tasks"); break;
         case T_CLEAN:
             clean_up("clean_up");
@@ -593,7 +608,7 @@ static void run(const Case &c, Ctx &ctx) {
 
 int main(int argc, char **argv) {
     Spec sp{"C07", "c07_tasks", gen_case, run,
-            "generated programs (<=50 commands over schedule_now/schedule_future/cancel/run_all/has_tasks/clean_up+re-init, <=16 "
+            "generated programs (<=50 commands over schedule_now/schedule_future(+bursts)/cancel/run_all/has_tasks/clean_up+re-init, <=16 "
             "tasks, <=36 script steps run by the task functions); non-trivial = >=1 schedule issued from inside a running task "
             "and >=1 cancel, issued from inside a running task, of a task already moved into the current run_all batch; "
             "distinct by hash of the serialised case"};
